@@ -15,6 +15,9 @@
 (* Which concrete frames the identifiers 1..NFrames stand for, the compression of the codec and the kind   *)
 (* of byte source (bytes.Buffer, bytes.Reader, bufio, one byte at a time, random chunks, non-seekable) are  *)
 (* chosen by the harness, which replays every behaviour for each combination.                               *)
+(* Size classes: in one behaviour out of seven identifier 1 stands for a frame whose body is larger than    *)
+(* 1 MiB and not a power of two (readers, compressors and buffers work in blocks: a body that spans blocks   *)
+(* must still end exactly at its boundary).                                                                  *)
 EXTENDS Integers, Sequences, TLC, Json
 
 CONSTANTS NFrames,     \* size of the frame alphabet
